@@ -808,4 +808,112 @@ example :
                             t0 := some (737394 * DAYUS + 32400000000), t1 := some (737456 * DAYUS + 63000000000) }
     c.hol = [737425, 737426] ∧ c.t0 = 737394 ∧ c.t1 = 737456 ∧ c.isB 737425 = false ∧ c.isB 737427 = true := by decide
 
+/-! ### round k3: the converse of `drange_1b` (KeyError), and `Calendar.clock` -/
+
+/-- "`s` is a key of the business-day table": a business day of the calendar's range -/
+def InTable (c : Cal) (s : Int) : Prop := c.t0 ≤ s ∧ s ≤ c.t1 ∧ c.isB s = true
+
+/-- `dt2int[s]` raises `KeyError` exactly when `s` is not a business day of the range (and never anything else) -/
+theorem clockOf_error_iff (c : Cal) (s : Int) : clockOfT c.bdays s = .error .key ↔ ¬ InTable c s := by
+  constructor
+  · intro h hs
+    rw [clockOf_bday c s hs.1 hs.2.1 hs.2.2] at h; cases h
+  · intro h
+    cases hc : clockOfT c.bdays s with
+    | ok i => obtain ⟨a, b, d, _⟩ := clockOf_ok c s i hc; exact absurd ⟨a, b, d⟩ h
+    | error e => unfold clockOfT at hc; split at hc <;> cases hc; rfl
+
+/-- the CONVERSE of `drange_1b` (reviews t3 §5.4, v3 §C05-3.2): when an adjusted endpoint is not a business day of the
+calendar's range, `Calendar.drange(x, y, 'kb')` raises `KeyError` — for EVERY step `k` (the look-ups come before the step is
+used, also before the `ValueError` of `range(.., 0)`) -/
+theorem drange_kb_error (c : Cal) (x y k : Int)
+    (h : ¬ InTable c (c.adjust c.adj x) ∨ ¬ InTable c (c.adjust c.adj y)) : c.drangeB x y k = .error .key := by
+  unfold Cal.drangeB Cal.drangeBT
+  by_cases hx : InTable c (c.adjust c.adj x)
+  · have hy : ¬ InTable c (c.adjust c.adj y) := by rcases h with h | h; exact absurd hx h; exact h
+    rw [clockOf_bday c _ hx.1 hx.2.1 hx.2.2, (clockOf_error_iff c _).2 hy]; rfl
+  · rw [(clockOf_error_iff c _).2 hx]; rfl
+
+theorem drange_1b_error (c : Cal) (x y : Int)
+    (h : ¬ InTable c (c.adjust c.adj x) ∨ ¬ InTable c (c.adjust c.adj y)) : c.drangeB x y 1 = .error .key :=
+  drange_kb_error c x y 1 h
+
+/-- `drange_1b` and its converse together: the call answers exactly when both adjusted endpoints are business days of the range;
+then the answer is the list of `drange_1b`, otherwise `KeyError` -/
+theorem drange_1b_ok_iff (c : Cal) (x y : Int) :
+    (∃ l, c.drangeB x y 1 = .ok l) ↔ InTable c (c.adjust c.adj x) ∧ InTable c (c.adjust c.adj y) := by
+  constructor
+  · intro ⟨l, hl⟩
+    by_cases hx : InTable c (c.adjust c.adj x)
+    · by_cases hy : InTable c (c.adjust c.adj y)
+      · exact ⟨hx, hy⟩
+      · rw [drange_1b_error c x y (Or.inr hy)] at hl; cases hl
+    · rw [drange_1b_error c x y (Or.inl hx)] at hl; cases hl
+  · intro ⟨hx, hy⟩
+    exact ⟨_, drange_1b c x y hx hy⟩
+
+-- both sides occur in `jan`: Thu 6 Feb is in the table; a day after the range's end adjusts to a day beyond the range: KeyError
+example : InTable jan (jan.adjust jan.adj 737461) ∧ ¬ InTable jan (jan.adjust jan.adj 737475) ∧
+    jan.drangeB 737461 737475 1 = .error .key := by
+  refine ⟨by unfold InTable; decide, by unfold InTable; decide, by rfl⟩
+
+/-- `Calendar.clock(t)` — read literally in the model (`dt2int.get(t, dt2int[adjust(t)])`, default evaluated first) — is the table
+position of `adjust(t)`: the `.get` on `t` itself never changes the answer, because a table key is its own adjustment -/
+theorem clock_eq (c : Cal) (t : Int) : c.clock t = clockOfT c.bdays (c.adjust c.adj t) := by
+  unfold Cal.clock Cal.clockT
+  cases hd : clockOfT c.bdays (c.adjust c.adj t) with
+  | error e => rfl
+  | ok d =>
+    cases hi : idxIn t c.bdays with
+    | none => rfl
+    | some i =>
+      have hm := idxIn_some_mem t _ i hi
+      rw [mem_bdays] at hm
+      have hfix := Calendar.adjust_bday c c.adj t hm.1 hm.2.1 hm.2.2
+      rw [hfix] at hd
+      unfold clockOfT at hd
+      rw [hi] at hd
+      cases hd; rfl
+
+/-- by day-by-day counting: `clock(t)` is the NUMBER OF BUSINESS DAYS of the range strictly before `adjust(t)` -/
+theorem clock_counts (c : Cal) (t : Int) (h : InTable c (c.adjust c.adj t)) :
+    c.clock t = .ok (cnt c c.t0 (c.adjust c.adj t - 1)) := by
+  rw [clock_eq, clockOf_bday c _ h.1 h.2.1 h.2.2]; rfl
+
+/-- `clock` answers exactly when `adjust(t)` is a business day of the range; otherwise `KeyError` -/
+theorem clock_ok_iff (c : Cal) (t : Int) : (∃ i, c.clock t = .ok i) ↔ InTable c (c.adjust c.adj t) := by
+  constructor
+  · intro ⟨i, hi⟩
+    rw [clock_eq] at hi
+    obtain ⟨a, b, d, _⟩ := clockOf_ok c _ i hi
+    exact ⟨a, b, d⟩
+  · intro h; exact ⟨_, clock_counts c t h⟩
+
+theorem clock_error (c : Cal) (t : Int) (h : ¬ InTable c (c.adjust c.adj t)) : c.clock t = .error .key := by
+  rw [clock_eq]; exact (clockOf_error_iff c _).2 h
+
+/-- `int2dt[clock(t)] == adjust(t)`: the clock is the inverse of the table -/
+theorem clock_inverse (c : Cal) (t : Int) (i : Nat) (h : c.clock t = .ok i) : c.bdays[i]? = some (c.adjust c.adj t) := by
+  rw [clock_eq] at h
+  exact clockOfT_getElem? _ _ _ h
+
+/-- the law `clock(add(t, n)) - clock(t) == n` (harness `law-clock`), for every `n` inside the guard -/
+theorem clock_add (c : Cal) (t n : Int) (h : InRange c (c.adjust c.adj t) n) :
+    ∃ r i j, c.add c.adj t n = .ok r ∧ c.clock t = .ok i ∧ c.clock r = .ok j ∧ (j : Int) - (i : Int) = n := by
+  obtain ⟨r, hr, rB, r0, r1, rK⟩ := add_spec c c.adj t n h
+  refine ⟨r, K c (c.adjust c.adj t), K c r, hr, ?_, ?_, by omega⟩
+  · rw [clock_eq, clockOf_bday c _ h.1 h.2.1 h.2.2.1]
+  · rw [clock_eq, Calendar.adjust_bday c c.adj r r0 r1 rB, clockOf_bday c r r0 r1 rB]
+
+/-- the clock is strictly increasing along the business days of the range -/
+theorem clock_strict_mono (c : Cal) (a b : Int) (ha : InTable c a) (hb : InTable c b) (hab : a < b) :
+    ∃ i j, c.clock a = .ok i ∧ c.clock b = .ok j ∧ i < j := by
+  refine ⟨K c a, K c b, ?_, ?_, K_lt c a b ha.1 hab ha.2.2⟩
+  · rw [clock_eq, Calendar.adjust_bday c c.adj a ha.1 ha.2.1 ha.2.2, clockOf_bday c a ha.1 ha.2.1 ha.2.2]
+  · rw [clock_eq, Calendar.adjust_bday c c.adj b hb.1 hb.2.1 hb.2.2, clockOf_bday c b hb.1 hb.2.1 hb.2.2]
+
+-- Fri 31 Jan 2020 (a holiday of `jan`) adjusts to Thu 30 Jan, the 21st business day of the range (position 20)
+example : jan.clock 737455 = .ok 20 ∧ jan.clock 737454 = .ok 20 ∧ jan.clock 737458 = .ok 21 ∧ jan.clock 737480 = .error .key :=
+  ⟨by rfl, by rfl, by rfl, by rfl⟩
+
 end Pyg.Props.C05
